@@ -17,8 +17,12 @@ def scenario(rng, i):
     fm = gen.gen_fmts(rng)
     for d in rng.sample(dirs, min(len(dirs), rng.choice([0, 0, 1, 2]))):
         steps.append({"op": "create", "root": d, "fmts": fm if same else gen.gen_fmts(rng), **({"n": True} if rng.random() < 0.15 else {})})
+    # recorded ignore patterns (with matching entries on disk) -- only where no nested history was sealed from inside first: hashes
+    # recorded by a run started in a sub-folder were computed under THAT run's patterns (the property speaks of one view)
+    pats = (["*.tmp", "a?", "notes", "Sound/"] + gen.path_patterns(tree, rng, k=2)) if i % 5 == 3 and not steps else None
     for k in range(rng.choice([1, 1, 2, 3])):
-        steps.append({"op": "create", "fmts": fm if same else gen.gen_fmts(rng), **({"n": True} if rng.random() < 0.15 else {})})
+        steps.append({"op": "create", "fmts": fm if same else gen.gen_fmts(rng), **({"n": True} if rng.random() < 0.15 else {}),
+                      **({"i": rng.sample(pats, 2)} if pats and k == 0 else {})})
     steps.append({"op": "verifydh"})
     if rng.random() < 0.8:
         e = gen.gen_edit(rng, cur, kinds=("set", "rename", "add", "delete"))
@@ -45,6 +49,10 @@ CORPUS = [{"tree": {"Ab": {"d": {"k.txt": {"f": "6b"}}}}, "steps": [{"op": "crea
 CORPUS += [{"tree": {"._a001.mov": {"f": "0101"}, "a001.mov": {"f": "0202"}, "Reel": {"d": {"._x.bin": {"f": "0303"}, "y.bin": {"f": "0404"}}}},
             "steps": [{"op": "create", "fmts": ["md5", "c4"]}, {"op": "verifydh"}, {"op": "set", "path": "._a001.mov", "data": "aa"}, {"op": "verifydh"},
                       {"op": "create", "fmts": ["md5", "c4"]}, {"op": "delete", "path": "Reel/._x.bin"}, {"op": "verifydh"}, {"op": "verify"}]}]
+# a recorded ignore pattern with a matching entry on disk: the entry stays out of the hashes when they are recomputed, too
+CORPUS += [{"tree": {"keep.bin": {"f": "0101"}, "cache.tmp": {"f": "0202"}, "Sub": {"d": {"x.bin": {"f": "03"}, "scratch": {"d": {"y.bin": {"f": "04"}}}}}},
+            "steps": [{"op": "create", "fmts": ["md5", "c4"], "i": ["*.tmp", "Sub/scratch"]}, {"op": "verifydh"}, {"op": "verifydh", "co": True},
+                      {"op": "set", "path": "cache.tmp", "data": "ff"}, {"op": "verifydh"}, {"op": "set", "path": "Sub/x.bin", "data": "aa"}, {"op": "verifydh"}]}]
 check, replay = make("C09", oracles.oracle_c09, scenario, 70, 2000, RULE,
                      corpus_defects=[defects.d02_c09_flat_root_change, defects.d03_c09_mixed_format_child, defects.d04_c09_no_dirhash_generation],
                      nontrivial=lambda scn, obs: any(s["op"] in ("set", "rename", "add", "delete") for s in scn["steps"]), corpus=CORPUS)
